@@ -56,8 +56,23 @@ pub enum C02Case {
     },
     /// domain B: signed base package with one bit flipped in the main header or payload;
     /// `fixup` = the attacker also recomputes the (unsigned) digests
-    BitFlip { base: u8, bit: u32, fixup: bool },
-    Mutated { base: u8, muts: Vec<crate::gen::mutate::Mutation>, region: u8, fixup: bool },
+    BitFlip {
+        base: u8,
+        bit: u32,
+        fixup: bool,
+        /// the attacker rebuilds the (unsigned) signature header: keeps the signatures, adds
+        /// freshly computed MD5/SHA1/SHA256 digests of the tampered header and payload
+        #[serde(default)]
+        rebuild_sig: bool,
+    },
+    Mutated {
+        base: u8,
+        muts: Vec<crate::gen::mutate::Mutation>,
+        region: u8,
+        fixup: bool,
+        #[serde(default)]
+        rebuild_sig: bool,
+    },
 }
 
 #[derive(Debug)]
@@ -130,6 +145,31 @@ fn fixup_sig_digests(bytes: &mut [u8]) {
     patch(tags::SIG_MD5, digests::md5_raw(&[&hb, &payload]));
 }
 
+/// rebuild the signature header: signatures kept verbatim, digests replaced by (or added as)
+/// correct MD5 / SHA1 / SHA256 values of the current header and payload
+fn rebuild_sig_header(bytes: &[u8]) -> Option<Vec<u8>> {
+    let seg = fmt::decode(bytes).ok()?;
+    let hb = fmt::normalized_header_bytes(bytes, &seg.hdr);
+    let payload = &bytes[seg.payload_start..];
+    let mut entries: Vec<(u32, Val)> = vec![];
+    for e in &seg.sig.entries {
+        if e.tag < 100 || [tags::SIG_MD5, tags::SIG_SHA1, tags::SIG_SHA256].contains(&e.tag) {
+            continue;
+        }
+        entries.push((e.tag, fmt::decode_entry(seg.sig.store(bytes), e)?));
+    }
+    entries.push((tags::SIG_MD5, Val::Bin(digests::md5_raw(&[&hb, payload]))));
+    entries.push((tags::SIG_SHA1, Val::s(&digests::sha1_hex(&[&hb]))));
+    entries.push((tags::SIG_SHA256, Val::s(&digests::sha256_hex(&[&hb]))));
+    entries.sort_by_key(|e| e.0);
+    let sig = fmt::layout(&entries, Some(fmt::TAG_HEADERSIGNATURES));
+    let mut out = bytes[..fmt::LEAD_LEN].to_vec();
+    sig.encode(&mut out);
+    out.extend(std::iter::repeat(0u8).take(fmt::sig_padding(sig.dl)));
+    out.extend_from_slice(&bytes[seg.hdr.start..]);
+    Some(out)
+}
+
 /// overwrite PAYLOADDIGEST in the main header with the digest of the current payload
 fn fixup_payload_digest(bytes: &mut [u8]) {
     let Ok(seg) = fmt::decode(bytes) else { return };
@@ -196,13 +236,13 @@ impl Property for C02 {
         C02 { bases }
     }
     fn rule(&self) -> String {
-        format!("domain A: hand-encoded packages whose signature header carries any subset of OPENPGP/RSA/DSA/PGP(header+payload) tags, each with right or wrong data type, 0..3 OpenPGP entries (valid base64 of unique blobs, malformed base64, empty), right/wrong digests, verified with a recording verifier scripted with every accept/reject pattern; domain B: {} packages built and signed by the library with EVERY single bit of main header and payload flipped, with and without attacker-side recomputation of the unsigned digests, plus random multi-byte edits, verified with the real pgp verifier. Non-trivial: A = verifier consulted or result Ok; B = the mutant parses and differs from the original; distinct by hash of the package bytes.", self.bases.len())
+        format!("domain A: hand-encoded packages whose signature header carries any subset of OPENPGP/RSA/DSA/PGP(header+payload) tags, each with right or wrong data type, 0..3 OpenPGP entries (valid base64 of unique blobs, malformed base64, empty), right/wrong digests, verified with a recording verifier scripted with every accept/reject pattern; domain B: {} packages built and signed by the library with EVERY single bit of main header and payload flipped, plain, with attacker-side in-place recomputation of all digests, and with the unsigned signature header rebuilt around the kept signatures (fresh MD5/SHA1/SHA256 added), plus random multi-byte edits, verified with the real pgp verifier. Non-trivial: A = verifier consulted or result Ok; B = the mutant parses and differs from the original; distinct by hash of the package bytes.", self.bases.len())
     }
     fn assumptions(&self) -> Vec<String> {
         vec!["the converse (a correctly signed package must verify) is not part of the statement and not asserted here (C10 covers it)".into()]
     }
     fn required_labels(&self, _t: Tier) -> Vec<&'static str> {
-        vec!["recording", "returned-ok", "verifier-consulted", "openpgp-zero-entries", "openpgp-wrong-type", "legacy-pgp-tag", "bitflip-differs", "bitflip-fixup", "all-accepted-but-digest-wrong"]
+        vec!["recording", "returned-ok", "verifier-consulted", "openpgp-zero-entries", "openpgp-wrong-type", "legacy-pgp-tag", "bitflip-differs", "bitflip-fixup", "bitflip-sig-rebuilt", "all-accepted-but-digest-wrong"]
     }
     fn phases(&self, tier: Tier) -> Vec<Phase<C02Case>> {
         let mut flips: Vec<(u8, u32)> = vec![];
@@ -237,16 +277,16 @@ impl Property for C02 {
             },
             Phase::Enumerate {
                 name: "every-bit-flip",
-                total: flips.len() as u64 * 2,
+                total: flips.len() as u64 * 3,
                 exhaustive: true,
-                gen: Arc::new(move |i| f2.get((i / 2) as usize).map(|(base, bit)| C02Case::BitFlip { base: *base, bit: *bit, fixup: i % 2 == 1 })),
+                gen: Arc::new(move |i| f2.get((i / 3) as usize).map(|(base, bit)| C02Case::BitFlip { base: *base, bit: *bit, fixup: i % 3 == 1, rebuild_sig: i % 3 == 2 })),
             },
             Phase::Random {
                 name: "multi-byte-edits",
                 cases: tier.pick(20_000, 400_000),
                 strat: Arc::new(move || {
-                    (0..nb.max(1), proptest::collection::vec(crate::gen::mutate::mutation(), 1..4), prop_oneof![Just(3u8), Just(4u8), Just(6u8)], any::<bool>())
-                        .prop_map(|(base, muts, region, fixup)| C02Case::Mutated { base, muts, region, fixup })
+                    (0..nb.max(1), proptest::collection::vec(crate::gen::mutate::mutation(), 1..4), prop_oneof![Just(3u8), Just(4u8), Just(6u8)], 0u8..3)
+                        .prop_map(|(base, muts, region, mode)| C02Case::Mutated { base, muts, region, fixup: mode == 1, rebuild_sig: mode == 2 })
                         .boxed()
                 }),
             },
@@ -256,19 +296,19 @@ impl Property for C02 {
         let mut o = Outcome::new();
         let r = match case {
             C02Case::Recording { payload, openpgp, rsa, dsa, pgp, digests_ok, payload_digest, answers } => recording(&mut o, payload, openpgp, rsa, dsa, pgp, *digests_ok, *payload_digest, answers),
-            C02Case::BitFlip { base, bit, fixup } => {
+            C02Case::BitFlip { base, bit, fixup, rebuild_sig } => {
                 let (_, orig, key) = &self.bases[*base as usize % self.bases.len()];
                 let mut m = orig.clone();
                 let i = (*bit / 8) as usize % m.len();
                 m[i] ^= 1 << (bit % 8);
-                self.tampered(&mut o, orig, m, *key, *fixup, "bitflip")
+                self.tampered(&mut o, orig, m, *key, *fixup, *rebuild_sig, "bitflip")
             }
-            C02Case::Mutated { base, muts, region, fixup } => {
+            C02Case::Mutated { base, muts, region, fixup, rebuild_sig } => {
                 let (_, orig, key) = &self.bases[*base as usize % self.bases.len()];
                 let mut m = orig.clone();
                 let r = super::common::region_range(&m, *region);
                 crate::gen::mutate::apply(&mut m, r, muts);
-                self.tampered(&mut o, orig, m, *key, *fixup, "edit")
+                self.tampered(&mut o, orig, m, *key, *fixup, *rebuild_sig, "edit")
             }
         };
         if let Err((c, d)) = r {
@@ -279,10 +319,20 @@ impl Property for C02 {
 }
 
 impl C02 {
-    fn tampered(&self, o: &mut Outcome, orig: &[u8], mut m: Vec<u8>, key: usize, fixup: bool, what: &str) -> Result<(), (String, String)> {
+    #[allow(clippy::too_many_arguments)]
+    fn tampered(&self, o: &mut Outcome, orig: &[u8], mut m: Vec<u8>, key: usize, fixup: bool, rebuild_sig: bool, what: &str) -> Result<(), (String, String)> {
         if fixup {
             fixup_payload_digest(&mut m);
             fixup_sig_digests(&mut m);
+        }
+        if rebuild_sig {
+            match rebuild_sig_header(&m) {
+                Some(b) => m = b,
+                None => {
+                    o.label(format!("{what}-unparseable"));
+                    return Ok(());
+                }
+            }
         }
         let po = rpm::Package::parse(&mut &orig[..]).map_err(|e| ("harness-base".to_string(), e.to_string()))?;
         let pm = match panics::catch(|| rpm::Package::parse(&mut &m[..])) {
@@ -300,11 +350,14 @@ impl C02 {
         if fixup {
             o.label(format!("{what}-fixup"));
         }
+        if rebuild_sig {
+            o.label(format!("{what}-sig-rebuilt"));
+        }
         o.nontrivial_key(fnv1a(&m));
         let v = &keys().verifiers[key];
         match panics::catch(|| pm.verify_signature(v)) {
             Ok(Err(_)) => Ok(()),
-            Ok(Ok(())) => Err(("tampered-verifies".into(), format!("a package whose header/payload was modified ({what}{}) still verifies with the signer's key", if fixup { ", unsigned digests recomputed" } else { "" }))),
+            Ok(Ok(())) => Err(("tampered-verifies".into(), format!("a package whose header/payload was modified ({what}{}) still verifies with the signer's key", if fixup { ", unsigned digests recomputed" } else if rebuild_sig { ", signature header rebuilt with fresh MD5/SHA1/SHA256" } else { "" }))),
             Err(_) => {
                 o.label("crashed");
                 Ok(())
